@@ -149,8 +149,9 @@ def from_values(values, dtype):
 
 def sym_array(prefix, shape, dtype=_np.float32, **varkw):
     o = _np.empty(shape, dtype=object)
-    for idx in _np.ndindex(*shape):
-        name = prefix + "".join("_%d" % i for i in idx)
+    flat = varkw.get("kind") == "rng"     # a draw is a stream of values filled in C order: the k-th value has one name
+    for k, idx in enumerate(_np.ndindex(*shape)):   # whatever shape it was asked for (rand(6).reshape(2, 3) == rand(2, 3))
+        name = (prefix + "_f%d" % k) if flat else prefix + "".join("_%d" % i for i in idx)
         o[idx] = S(sc.var(name, **varkw))
         if name not in CTX.model:
             CTX.model[name] = CTX.sampler(name, varkw) if getattr(CTX, "sampler", None) else 0.5
